@@ -112,6 +112,7 @@ Definition delayed (N : popnet) (hist : list nstate) (d who var : nat) : vec :=
   | None => repeat 0 (size_of N who)
   end.
 
+Definition is_plain (k : coupling) : bool := match k with CPlain => true | _ => false end.
 Definition uses_post (k : coupling) : bool := match k with CPlain => false | CAlg b _ => b | CDyn b _ => b end.
 Definition is_dyn (k : coupling) : bool := match k with CDyn _ _ => true | _ => false end.
 Definition is_mat (w : weight) : bool := match w with WMat _ => true | WScal _ => false end.
@@ -119,7 +120,12 @@ Definition into (p tv : nat) (c : conn) : bool := (ctgt c =? p)%nat && (ctv c =?
 Definition n_into (N : popnet) (p tv : nat) : nat := length (filter (into p tv) (conns N)).
 
 (* ================================================================== Impl: the population circuit *)
-Definition near_one (w : Qc) : bool := Qcltb (Qcabs (w - 1)) (mkq 1 100000000).
+(* `weight_minimum` of _generate_edge_equation: a weight within this tolerance of 1 is not applied (the factor is elided).
+   The same elision is made for scalar edges (case II), so the explicit network elides too; the tolerance is a parameter
+   of the model, on the Impl side (case 0g) and on the Spec side (`elide` in `expand_conn`). *)
+Definition weight_tol : Qc := mkq 1 100000000.
+Definition near_one (w : Qc) : bool := Qcltb (Qcabs (w - 1)) weight_tol.
+Definition elide (w : Qc) : Qc := if near_one w then 1 else w.
 
 Definition case0a (W : mat) (s : vec) : vec :=
   if (ncols W =? 1)%nat then map (fun r => hd 0 r * hd 0 s) W       (* w_1d * s with a scalar s *)
@@ -135,25 +141,27 @@ Definition collides (N : popnet) (c : conn) : bool :=
    (Python round: half to even), rate a = n/d, stages z_1..z_n per SOURCE unit with z_k' = a*(z_(k-1) - z_k), z_0 = the source
    variable, all stages 0 at the start; the connection reads z_n.  In the explicit network every scalar edge has its own
    cascade; the cascades of the edges that leave one source unit with the same (d, s) are identical, so one (n x Ns) matrix
-   per connection holds them (stored in the connection's edge-state slot; a connection with a DYNAMIC coupling template
-   and a spread is not modelled — the generator does not produce it). *)
+   per connection holds them (stored in the connection's edge-state slot, after the pair states of a dynamic template). *)
 Definition round_half_even (q : Qc) : Z :=
   let num := Qnum (this q) in let den := Zpos (Qden (this q)) in
   let t := Z.div (2 * num + den) (2 * den) in
   if Z.eqb (Z.modulo (2 * num + den) (2 * den)) 0 && Z.odd t then (t - 1)%Z else t.
 Definition chain_order (ds : Qc * Qc) : nat := Nat.max 1 (Z.to_nat (round_half_even ((fst ds / snd ds) * (fst ds / snd ds)))).
 Definition chain_rate (ds : Qc * Qc) : Qc := Q2Qc (inject_Z (Z.of_nat (chain_order ds))) / fst ds.
+(* the edge-state slot of a connection: the (nt x ns) pair states of a dynamic template, followed by the stages of the cascade *)
+Definition chain_rows (N : popnet) (c : conn) (V : mat) : mat :=
+  if is_dyn (ccpl c) then skipn (size_of N (ctgt c)) V else V.
 Definition chain_deriv (N : popnet) (hist : list nstate) (c : conn) (V : mat) : mat :=
   match cspread c with
   | None => []
-  | Some ds => let a := chain_rate ds in
-               zipw (fun prev row => zipw (fun p z => a * (p - z)) prev row) (delayed N hist 0 (csrc c) (csv c) :: V) V
+  | Some ds => let a := chain_rate ds in let C := chain_rows N c V in
+               zipw (fun prev row => zipw (fun p z => a * (p - z)) prev row) (delayed N hist 0 (csrc c) (csv c) :: C) C
   end.
-(* the (possibly delayed) source vector of a connection *)
+(* the (possibly delayed) source vector of a connection; with a coupling template the template reads this vector *)
 Definition src_vec (N : popnet) (hist : list nstate) (c : conn) (V : mat) : vec :=
   match cspread c with
   | None => delayed N hist (eff_delay (cdelay c)) (csrc c) (csv c)
-  | Some _ => if is_dyn (ccpl c) then delayed N hist 0 (csrc c) (csv c) else last V (repeat 0 (size_of N (csrc c)))
+  | Some _ => last (chain_rows N c V) (repeat 0 (size_of N (csrc c)))
   end.
 
 Definition pop_source (N : popnet) (hist : list nstate) (c : conn) (V : mat) : vec :=
@@ -178,7 +186,7 @@ Definition pop_edge_deriv (N : popnet) (hist : list nstate) (c : conn) (V : mat)
   match cw c, ccpl c with
   | WMat W, CDyn _ g =>
       let s := pop_source N hist c V in
-      map3m g (broadcast_pre s (length W)) (broadcast_post (post_of N hist c) (length s)) V
+      map3m g (broadcast_pre s (length W)) (broadcast_post (post_of N hist c) (length s)) V ++ chain_deriv N hist c V
   | _, _ => chain_deriv N hist c V
   end.
 
@@ -249,7 +257,7 @@ Definition full (nt ns : nat) (w : Qc) : mat := repeat (repeat w ns) nt.
 Definition expand_conn (mw : Qc) (N : popnet) (c : conn) : list sedge :=
   match cw c with
   | WMat W => expand_mat mw W
-  | WScal w => expand_mat mw (full (size_of N (ctgt c)) (size_of N (csrc c)) w)
+  | WScal w => expand_mat mw (full (size_of N (ctgt c)) (size_of N (csrc c)) (if is_plain (ccpl c) then elide w else w))
   end.
 
 Fixpoint edge_sum (es : list sedge) (term : sedge -> Qc) (i : nat) : Qc :=
@@ -275,7 +283,7 @@ Definition exp_edge_deriv (N : popnet) (hist : list nstate) (c : conn) (V : mat)
       let s := src_vec N hist c V in
       let t := post_of N hist c in
       map (fun i => map (fun j => g (nth j s 0) (nth i t 0) (nth j (nth i V []) 0)) (seq 0 (size_of N (csrc c))))
-          (seq 0 (size_of N (ctgt c)))
+          (seq 0 (size_of N (ctgt c))) ++ chain_deriv N hist c V
   | _ => chain_deriv N hist c V
   end.
 
@@ -321,13 +329,12 @@ Definition init_chain (N : popnet) (c : conn) : mat :=
 (* initial edge states: the declared value v0 for every pair of a dynamic matrix coupling *)
 Definition init_edges (N : popnet) (v0 : Qc) : list mat :=
   map (fun c => match cw c, ccpl c with
-                | WMat W, CDyn _ _ => map (fun r => map (fun _ => v0) r) W
+                | WMat W, CDyn _ _ => map (fun r => map (fun _ => v0) r) W ++ init_chain N c
                 | _, _ => init_chain N c end) (conns N).
 Definition init_edges_exp (N : popnet) (v0 : Qc) : list mat :=
-  map (fun c => if is_dyn (ccpl c) then full (size_of N (ctgt c)) (size_of N (csrc c)) v0 else init_chain N c) (conns N).
+  map (fun c => if is_dyn (ccpl c) then full (size_of N (ctgt c)) (size_of N (csrc c)) v0 ++ init_chain N c else init_chain N c) (conns N).
 
 (* repair F3: a scalar weight that comes with a coupling template is expanded to the full (nt x ns) matrix *)
-Definition is_plain (k : coupling) : bool := match k with CPlain => true | _ => false end.
 Definition norm_conn (N : popnet) (c : conn) : conn :=
   match cw c with
   | WScal w => if fixed_F3 && negb (is_plain (ccpl c))
@@ -369,8 +376,14 @@ Definition g_coupling_shape (N : popnet) : bool := negb (existsb cpl_bad_shape (
 Definition g_post_name (N : popnet) : bool := fixed_F2 || negb (existsb (collides N) (conns N)).
 Definition g_scalar_plain (N : popnet) : bool :=
   fixed_F3 || forallb (fun c => match cw c, ccpl c with WScal _, CPlain => true | WScal _, _ => false | _, _ => true end) (conns N).
+(* tie domain of the explicit reference: no MATRIX entry (and no scalar weight that comes with a coupling template: it is expanded to a matrix) within the tolerance of 1, other than 1 itself.  The explicit
+   scalar edges elide such an entry, matvec does not: the two circuits then differ by at most weight_tol * |source| — the
+   declared tolerance of the code, not a finding; the generator produces no such entry. *)
 Definition g_not_near_one (N : popnet) : bool :=
-  forallb (fun c => match cw c with WScal w => negb (near_one w) || Qceqb w 1 | _ => true end) (conns N).
+  forallb (fun c => match cw c with
+                    | WMat W => forallb (forallb (fun w => negb (near_one w) || Qceqb w 1)) W
+                    | WScal w => is_plain (ccpl c) || negb (near_one w) || Qceqb w 1
+                    end) (conns N).
 (* min_weight: every entry is either exactly 0 or above the threshold of the explicit network *)
 Definition entry_ok (mw w : Qc) : bool := Qceqb w 0 || keep mw w.
 Definition g_threshold (mw : Qc) (N : popnet) : bool :=
@@ -395,7 +408,7 @@ Definition g_delay_post (N : popnet) : bool :=
 Definition g_no_alias (N : popnet) : bool := negb (alias N).
 Definition g_delay_shape (N : popnet) : bool := negb (existsb delay_1x1 (conns N)).
 Definition guards (mw : Qc) (N : popnet) : bool :=
-  g_distinct_sources N && g_coupling_shape N && g_post_name N && g_scalar_plain N && g_not_near_one N &&
+  g_distinct_sources N && g_coupling_shape N && g_post_name N && g_scalar_plain N &&
   g_no_alias N && g_delay_shape N && g_threshold mw N.
 (* ================================================================== the concrete unit of the correspondence run *)
 (* operator uop: x' = eta - a*x + s_in + b*g_in;  operator zop: z' = c*x - a*z with its OWN parameter `a`
